@@ -30,6 +30,13 @@ class TInterp(Interp):
        * results of << >> & | that stay symbolic are reported as ('binop', op, ctype, line, lhs, rhs) events;
        * x += k, x++ ... on a local variable are reported as ('upd', name, old, new, line) events."""
 
+    def __init__(self, program, unit, cfg=None):
+        cfg = dict(cfg or {})
+        # `for (;;) { if (end) break; ... }` is the same loop as `while (!end) { ... }`: bound it like one (the engine default of 64
+        # iterations, each forking on an opaque condition, does not terminate)
+        cfg.setdefault('forever_limit', cfg.get('loop_limit', 1) + 1)
+        Interp.__init__(self, program, unit, cfg)
+
     def place(self, n, env):
         p = Interp.place(self, n, env)
         m = n.strip() if n.kind == 'ParenExpr' else n
